@@ -2,6 +2,7 @@ import SedpackProofs.TreeEnum
 import SedpackProofs.Crash
 import SedpackProofs.TreeCrash
 import SedpackProofs.TreeCrashRefine
+import SedpackProofs.TreeHeal
 import SedpackProps.C08
 /-!
 # C06 ↔ M-TREE: the merge of the code-shaped model obeys M-CRASH's install discipline
@@ -245,6 +246,39 @@ theorem C06_history_crash_points (H : SList → Nat) (B fuel : Nat) (hfuel : B <
   have hi : SInv B ds.fs := C06_history_sinv H B fuel hfuel hB hist _ (C06_empty_sinv B) hh
   obtain ⟨h1, h2, h3⟩ := C06_session_crash_points H B fuel hfuel hB ds se hse hg hi hl k s
   exact ⟨h1, h2, h3, fun x => C06_crash_point_keeps_list_order H B fuel hfuel hB ds se hse hi k x⟩
+
+/-- **The next completed session heals.**  Take *any* well-formed store — in particular the store after any prefix of any
+session's installs (`C06_session_crash_points` gives `SInv`), where parents may record stale totals and digests of children that
+were already rewritten — and any split table.  After a completed session, every split the session wrote into is recorded by an
+*exact* entry again (digests and totals of every list reachable from it are right), so the integrity check of those splits passes
+(`C05_check_complete`).  Nothing has to be repaired by hand after a crash. -/
+theorem C06_next_session_heals (H : SList → Nat) (B fuel : Nat) (hfuel : B < fuel + 1) (hB : 1 ≤ B) (c : FS) (splits : Nat → Option Kid)
+    (hwf : WF c) (hd : DepthOK c B) (se : Session) (hse : ∀ w ∈ se, w.1 ≠ [] ∧ w.1.length ≤ B) :
+    ∀ w ∈ se, ∃ k, (session H fuel { fs := c, splits := splits } se).splits (w.1.headD 0) = some k ∧ k.dir = [w.1.headD 0] ∧
+      Exact H (session H fuel { fs := c, splits := splits } se).fs k := by
+  intro w hw
+  obtain ⟨a, b, _, _⟩ := applyWrites_props B se c hwf hd
+  have hdirs : ∀ d ∈ se.map (·.1), d ≠ [] ∧ d.length ≤ B := by
+    intro d hd'; obtain ⟨w', hw', rfl⟩ := List.mem_map.mp hd'; exact hse w' hw'
+  have hmem : w.1.headD 0 ∈ dedup ((se.map (·.1)).map (fun d => d.headD 0)) := by
+    rw [mem_dedup]; exact List.mem_map.mpr ⟨w.1, List.mem_map.mpr ⟨w, hw, rfl⟩, rfl⟩
+  exact mergeSplits_heals H B fuel hfuel hB (se.map (·.1)) hdirs _ (DS.mk (applyWrites c se) splits) (nodup_dedup _) a b _ hmem
+
+/-- … in particular after a crash at any point of any session continuing any history -/
+theorem C06_crash_then_session_heals (H : SList → Nat) (B fuel : Nat) (hfuel : B < fuel + 1) (hB : 1 ≤ B)
+    (hist : List Session) (hh : ∀ se ∈ hist, ∀ w ∈ se, w.1 ≠ [] ∧ w.1.length ≤ B)
+    (crashed : Session) (hc : ∀ w ∈ crashed, w.1 ≠ [] ∧ w.1.length ≤ B) (k : Nat)
+    (next : Session) (hn : ∀ w ∈ next, w.1 ≠ [] ∧ w.1.length ≤ B) :
+    let ds := hist.foldl (session H fuel) { fs := fun _ => none, splits := fun _ => none }
+    let c := applyInstalls ds.fs ((sessionE H fuel ds crashed).2.take k)
+    ∀ w ∈ next, ∃ kd, (session H fuel { fs := c, splits := ds.splits } next).splits (w.1.headD 0) = some kd ∧
+      Exact H (session H fuel { fs := c, splits := ds.splits } next).fs kd := by
+  intro ds c w hw
+  have hi : SInv B ds.fs := C06_history_sinv H B fuel hfuel hB hist _ (C06_empty_sinv B) hh
+  obtain ⟨_, _, hv⟩ := sessionE_spec H B fuel hfuel hB ds crashed hc hi
+  have hsi := (valid_sinv_mono B _ _ (valid_take B _ _ k hv).1 hi).1
+  obtain ⟨kd, h1, _, h3⟩ := C06_next_session_heals H B fuel hfuel hB c ds.splits hsi.wf hsi.depth next hn w hw
+  exact ⟨kd, h1, h3⟩
 
 /-- Non-vacuity and a test of the emitted order: one session writing into `train/a` (0/5) and `train` (0) of an empty
 dataset installs the two leaf lists (after the shards were closed), the same two on exit, then `train/a`, then `train`. -/
